@@ -69,3 +69,21 @@ Theorem c07_legacy_preserve_uniform : forall l,
   Forall (fun h => h_preserve h = negb (l_skip_auth_strip_headers l)) (legacy_request_headers l).
 Proof. exact legacy_preserve_uniform. Qed.
 Print Assumptions c07_legacy_preserve_uniform.
+
+(* ---- nothing else writes request or response headers ---- *)
+From V.Gen Require Surface.
+From V.Proofs Require SurfaceExpected.
+
+(* the inventory REGENERATED on this run from all non-test sources outside the provider clients - every
+   Set / Add / Del on a header map - is exactly the reviewed list: the injectors, the strip and flatten
+   steps modelled above, the GAP-Auth copy of the authenticated user and fixed response headers.  A new
+   writer re-opens this obligation. *)
+Theorem c07_header_writes_pinned :
+  map fst SurfaceExpected.expected_header_surface = Surface.header_surface.
+Proof. vm_compute. reflexivity. Qed.
+Print Assumptions c07_header_writes_pinned.
+
+Theorem c07_header_writes_reviewed :
+  forallb (fun e => SurfaceExpected.header_reviewed (snd e)) SurfaceExpected.expected_header_surface = true.
+Proof. vm_compute. reflexivity. Qed.
+Print Assumptions c07_header_writes_reviewed.
